@@ -60,7 +60,10 @@ def clientRead (raw : Bytes) : List String → Bool → Bytes → Option (Option
 def cmdGet (a : KV) : String :=
   match ofHex (get a "id"), ofHex (get a "raw") with
   | some id, some raw =>
-    let dec := decOf a
+    -- `dec=`: what desync.Decompress makes of `raw`; `wdec=`: of the other bytes a `wrong` answer carries
+    let d := get a "wdec"
+    let w : Option Bytes := if d.startsWith "ok:" then ofHex ((d.drop 3).toString) else none
+    let dec : Bytes → Option Bytes := fun b => if b == raw then decOf a b else w
     let (o, n) := clientRead raw (script a) false [] none 0
     s!"{Remote.resStr dec (gcsGetChunk (digestOf (get a "alg")) dec id (convsOf a) (flag a "skip") o)} gets={n}"
   | _, _ => "bad-op"
